@@ -224,6 +224,9 @@ theorem string_decode_at (s : List Char) (inp : List Char) (off : Nat) (rest : L
   rw [this]
   simp
 
+/-- the hypotheses of `string_decode_at` are satisfiable -/
+example : ("f(s: \"a\\n\")".toList).drop 5 = '"' :: (specEscape ['a', '\n'] ++ ['"']) ++ [')'] := by decide
+
 open NitroVerif.StringParse in
 /-- `string_decode`: for EVERY list of characters `s`, parsing the canonical literal `"` ++ specEscape s ++ `"` with
     the generated grammar's `StringValue` rule and building it gives `s` back — with the depth bound the parser model
@@ -306,15 +309,28 @@ example :
   decide +kernel
 
 /-
+PROVED since wave 3 (no longer open): `string_decode` / `string_decode_at` above (composed over a whole literal, every
+`s`), and in `Props/C07Value.lean`: `render_parse_value` (+ `_at`, `_default`, `_canonical`) — the whole `Value`
+sub-language, nested lists/objects, all scalar kinds — `render_parse_arguments` (`( name: value … )`) and
+`render_parse_directives` (`@name(args) @name …`), all with ARBITRARY trivia (spaces, tabs, line terminators, commas, BOM
+and `# …` comments) at every gap between tokens, true positions included.
+
 OPEN — carried by K/O only (stated, not proved):
 
-theorem string_decode : stringValueChars (parse ("\"" ++ specEscape s ++ "\"")) = s      -- composed over a whole string
-  -- the three arms are proved above (`string_decode_escape`, `string_decode_code`, `string_decode_plain`); the
-  -- composition needs the PEG run on an arbitrary string (O: hostile strings of every generated document).
-theorem render_parse_value (the `Value` sub-language; `Type` is proved above), and the full statement
-theorem parse_render : ∀ A τ, parseModel (render A τ) = A
-  -- a verified-parser result beyond this budget. Established by K (model = code, 0 disagreements on every
-  -- generated text, canonical and noisy) + O (code = A, structure and positions) in harness/src/bin/c07.rs.
+theorem render_parse_value with comments whose text begins (after spaces) with `import`, or a comment at the very end of
+the input without a line terminator
+  -- `Ws` (Lemmas/ParseComment.lean) covers every comment `# text ⏎` (LF, CR LF or CR) whose text does not begin with the
+  -- letters `import`: for those the rule's negative lookahead `!ext_ImportStatementContent` would have to be followed
+  -- through the whole `#import … from "…"` grammar. Whitespace, commas, BOM and all other comments are proved.
+theorem string_decode for literals with `\uXXXX` / `\u{…}` escapes and for block strings
+  -- `specEscape` never writes `\u` escapes (every character has a plain or two-character form), so `string_decode`
+  -- covers every string VALUE but not every string LITERAL; block strings are returned raw (open finding t).
+theorem parse_render : ∀ A τ, parseModel (render A τ) = A      -- the full document language
+  -- proved sub-languages: `Type` (`render_parse_type`, canonical rendering), string literals (`string_decode`), `Value`,
+  -- `Arguments`, `Directives` (arbitrary trivia). NOT proved: fields / selection sets / variable definitions / operations /
+  -- fragments / type-system definitions (the lemmas `render_parse_value_at`, `string_decode_at`, `TypeRunsAt`,
+  -- `arguments_runs`, `directives_runs` are in the embedded form those need). Established by K (model = code, 0 disagreements on every generated text, canonical and
+  -- noisy) + O (code = A, structure and positions) in harness/src/bin/c07.rs.
 -/
 
 end NitroVerif.C07
